@@ -17,7 +17,7 @@ mod codec_b;
 pub fn run(args: &Args) {
     match args.prop.as_str() {
         "c14-ndl" => super::c19::run_c14_ndl(args),
-        "c14-stack" => super::c14s::run(args),
+        "c14-stack" | "c14-path" => super::c14s::run(args),
         "c14-dhcps" | "c14-dhcps-v0" => dhcps::run(args),
         "c14-dnssim" | "c14-dnssim-v0" => dnssim::run(args),
         _ => {
